@@ -5,6 +5,7 @@ import numpy as np
 import scipy.signal
 
 from mc.engine import Clause, Res
+from mc import layouts as _layouts
 
 from ibldsp import fourier, utils
 
@@ -371,5 +372,6 @@ CHECK = {
         Clause("filter-sequences", "lp/hp equal their definition in call sequences with changing sampling interval", cases=fhist_cases, check=fhist_check),
         Clause("dft", "dft/dft2 vs numpy.fft for every n", cases=dft_cases, check=dft_check, setup=_setup),
         Clause("cosine", "fcn_cosine monotone 0..1 for bound pairs on dense grids", cases=cos_cases, check=cos_check),
+        _layouts.make_clause(__import__("checks._layout_specs", fromlist=["x"]).c18()),
     ],
 }
